@@ -80,7 +80,11 @@ class St:
         return s
 
     def ev(self, e):
-        return subst(A.ev(e, self.env), self.store)
+        # field reads mean the CURRENT contents (store); locals hold terms over the INITIAL contents and must not be
+        # substituted again: evaluate with placeholders for the locals, substitute the store, then the locals
+        ph = A.Env({h: A.sym(("loc", h)) for h in self.env.m})
+        t = subst(A.ev(e, ph), self.store)
+        return subst(t, {("loc", h): v for h, v in self.env.m.items()})
 
 
 def _cond_facts(c, truth, st, out):
@@ -211,8 +215,16 @@ def paths(P, b, fields):
             else:
                 if "init" in x and mutating_call(x["init"]):
                     havoc(st)
-                for bd in ir.pat_binds(x["pat"]):
-                    st.env.m[bd["hid"]] = A.opaque()
+                i2 = ir.unparen(x["init"]) if "init" in x else None
+                if x["pat"].get("k") == "tuple" and i2 is not None and i2.get("k") == "tup" and len(i2.get("es", ())) == len(x["pat"].get("ps", ())) and \
+                        all(p_.get("k") in ("bind", "wild") for p_ in x["pat"]["ps"]):
+                    vals = [st.ev(e_) for e_ in i2["es"]]
+                    for p_, v_ in zip(x["pat"]["ps"], vals):
+                        if p_.get("k") == "bind":
+                            st.env.m[p_["hid"]] = v_
+                else:
+                    for bd in ir.pat_binds(x["pat"]):
+                        st.env.m[bd["hid"]] = A.opaque()
             return [st]
         if k == "assign":
             l = x["l"]
@@ -290,6 +302,15 @@ def paths(P, b, fields):
                         havoc(st)
             if mutating_call(x):
                 havoc(st)
+            return [st]
+        if k == "call" and (x.get("q") or "").endswith("mem::swap") and len(x.get("a", ())) == 2:
+            pa, pb = A.ev_place(x["a"][0], st.env), A.ev_place(x["a"][1], st.env)
+            if pa is not None and pb is not None and isinstance(pa, tuple) and isinstance(pb, tuple) and pa[0] == self_pl and pb[0] == self_pl:
+                va = st.store.get(pa, A.sym(pa))
+                vb = st.store.get(pb, A.sym(pb))
+                st.store[pa], st.store[pb] = vb, va
+                return [st]
+            havoc(st)
             return [st]
         # any other expression statement
         if k == "try" or ir.contains(x, lambda y: y.get("k") == "try"):
@@ -411,3 +432,58 @@ def union_rule(ck, P, rule):
                      nm, n_union, n_adopt, "; an empty argument is a no-op (%d)" % n_noop if other else ""),
                  "%s is not a bounding union: %s — a box/tile that was included can lie outside the accumulated box, so advertised coverages lose tiles" % (
                      nm, bad[0] if bad else "no %s path found" % ("union" if not n_union else "adopt-when-empty")), ir.loc(b))
+
+
+def transform_rule(ck, P, rule):
+    """TileBBox::flip_y / swap_xy (the box handed to the source for a converted stream, and the converted coverage):
+    on every path on which the box is not empty
+        flip_y :  y_min' = max - y_max,  y_max' = max - y_min,  x unchanged
+        swap_xy:  x_min' = y_min, y_min' = x_min, x_max' = y_max, y_max' = x_max
+    and an empty box stays as it is.  Decided on the terms of boxalg.paths (mem::swap of two fields is modelled)."""
+    impls = [b for b in P.bodies if b.get("self_adt", "").endswith("tile_bbox::TileBBox") and (b.get("trait_item") or "").endswith(("TransformCoord::flip_y", "TransformCoord::swap_xy"))]
+    if not ck.anchor(rule, "impl TransformCoord for TileBBox", impls, 2):
+        return
+    fields = ["level", "max", "x_min", "y_min", "x_max", "y_max"]
+    for b in impls:
+        nm = b["trait_item"].rsplit("::", 1)[-1]
+        r = paths(P, b, fields)
+        if not ck.check(r is not None and not r["overflow"] and r["paths"], rule, b["q"] + "|paths", "paths enumerated", "paths of %s cannot be enumerated" % nm, ir.loc(b)):
+            continue
+        sp = r["self"]
+
+        def S(f):
+            return A.sym((sp, "." + f))
+        if nm == "flip_y":
+            want = {"x_min": S("x_min"), "x_max": S("x_max"), "y_min": A.sub(S("max"), S("y_max")), "y_max": A.sub(S("max"), S("y_min"))}
+        else:
+            want = {"x_min": S("y_min"), "y_min": S("x_min"), "x_max": S("y_max"), "y_max": S("x_max")}
+        bad = []
+        n_live = 0
+        for st in r["paths"]:
+            if st.done == "err":
+                continue
+            empty = any(f[0] == "pred" and f[1] == "is_empty" and f[2] == sp and f[3] is True for f in st.facts)
+            final = {f: st.store.get((sp, "." + f), S(f)) for f in want}
+            if empty:
+                if not all(A.eq(final[f], S(f)) for f in want):
+                    bad.append("an empty box is modified")
+                continue
+            n_live += 1
+            for f in ("x_min", "y_min", "x_max", "y_max"):
+                if not A.eq(final[f], want[f]):
+                    bad.append("%s ends as `%s`, expected `%s`" % (f, A.show(final[f]), A.show(want[f])))
+                    break
+        ck.check(n_live >= 1 and not bad, rule, b["q"] + "|" + nm, "TileBBox::%s maps the box as the coordinate transform does (%d path(s))" % (nm, n_live),
+                 "TileBBox::%s does not map the box like the coordinate transform: %s — a converted stream asks the source for the wrong box" % (nm, bad[0] if bad else "no non-empty path"), ir.loc(b))
+    # the pyramid applies the box transform to every level
+    pim = [b for b in P.bodies if b.get("self_adt", "").endswith("tile_bbox_pyramid::TileBBoxPyramid") and (b.get("trait_item") or "").endswith(("TransformCoord::flip_y", "TransformCoord::swap_xy"))]
+    if ck.anchor(rule, "impl TransformCoord for TileBBoxPyramid", pim, 2):
+        for b in pim:
+            nm = b["trait_item"].rsplit("::", 1)[-1]
+            calls = [y for y in ir.walk_nodes(b["body"]) if y.get("k") == "mcall" and y.get("name") == nm]
+            adapt = [y["name"] for y in ir.walk_nodes(b["body"]) if y.get("k") == "mcall" and y.get("name") in ("skip", "take", "step_by", "filter", "take_while", "skip_while", "rev", "nth")]
+            over = [y for y in ir.walk_nodes(b["body"]) if y.get("k") == "mcall" and y.get("name") in ("iter_mut",) and ir.place_str(y["recv"]).endswith("level_bbox")] + \
+                   [y for y in ir.walk_nodes(b["body"]) if y.get("k") == "for" and "level_bbox" in (ir.place_str(y["iter"]) or "")]
+            esc = [y["k"] for y in ir.walk_nodes(b["body"]) if y.get("k") in ("break", "continue", "ret", "if", "match")]
+            ck.check(len(calls) == 1 and bool(over) and not adapt and not esc, rule, b["q"] + "|every-level", "the pyramid applies %s to every level box" % nm,
+                     "the pyramid does not apply %s to every level (adaptors %s, control flow %s)" % (nm, adapt, esc), ir.loc(b))
